@@ -280,7 +280,20 @@ fn exec_simple(st: &mut MState, word: u32) -> Result<(), MOut> {
             if funct == 0x3b {
                 return Err(MOut::Trap("rdhwr"));
             }
-            return Err(MOut::Unmodelled);
+            // MIPS32 DSP ASE, ADDU.QB group (funct 0x10): sa 0 = addu.qb, sa 1 = subu.qb: four independent
+            // modulo-256 byte lanes (the DSPControl overflow flag is not part of the compared state)
+            if funct == 0x10 && (sa == 0 || sa == 1) {
+                let mut v = 0u32;
+                for lane in 0..4 {
+                    let x = (a >> (8 * lane)) & 0xff;
+                    let y = (b >> (8 * lane)) & 0xff;
+                    let r = if sa == 0 { x.wrapping_add(y) } else { x.wrapping_sub(y) } & 0xff;
+                    v |= r << (8 * lane);
+                }
+                st.set(rd, v);
+            } else {
+                return Err(MOut::Unmodelled);
+            }
         }
         0x20 | 0x21 | 0x23 | 0x24 | 0x25 | 0x30 => {
             let ea = a.wrapping_add(sext16(imm));
